@@ -66,9 +66,10 @@ META = {
         'the reply of a request is sent by the connection thread after handle_request returned, outside every dispatcher lock '
         '(frappy/protocol/interface/handler.py), which the harness thread reproduces; the request marker is written by the harness '
         'thread right after the `recv` scheduling point',
-        'which read / change requests are refused, answered from the cache, or go through the read_/write_ wrapper (Cfg.rw) is read off the '
-        'real objects by the harness (rw_kind), not transcribed from _getParameterValue / _setParameterValue; what the driver function '
-        'returns or raises is part of the request script',
+        'which read / change requests are refused, answered from the cache, or go through the read_/write_ wrapper is computed by the '
+        'model (rwKindOf, a transcription of the checks of _getParameterValue / _setParameterValue) from the parameter table the harness '
+        'reads off the real objects (readonly, constant, has a read_ function); the theorems hold for every such table (Cfg.rw is '
+        'universally quantified); what the driver function returns or raises is part of the request script',
     ],
     'modelled_not_verified': [
         'Python threading.RLock semantics (mutual exclusion, re-entrance, no fairness)',
@@ -251,22 +252,18 @@ def rw_spec(r):
     return spec if ':' in spec else spec + (':target' if r[0] == 'change' else ':value')
 
 
-def rw_kind(node, w, spec):
-    """static outcome of the checks in front of the driver call (Dispatcher._getParameterValue / _setParameterValue), read off
-    the real objects: 'refuse' (error reply before anything happens), 'plain' (answered without calling into the module),
-    'calls' (through the read_ / write_ wrapper).  Only an input of the model: a wrong answer shows as a disagreement."""
-    mn, pn = spec.split(':', 1)
-    mo = node.secnode.modules.get(mn)
-    if mo is None:
-        return 'refuse'
-    pobj = mo.parameters.get(mo.accessiblename2attr.get(pn))
-    if pobj is None:
-        return 'refuse'
-    if w:
-        return 'refuse' if pobj.constant is not None or pobj.readonly else 'calls'
-    if pobj.constant is not None:
-        return 'plain'
-    return 'calls' if getattr(type(mo), 'read_' + pobj.name).poll is not False or pobj.name in READ_FN else 'plain'
+def param_table(node):
+    """the static facts the dispatcher's checks in front of the driver call look at, for every parameter of every module of the
+    node (also modules that are not exported) that has an exported name: [module, exported name, readonly, constant, the class
+    defines read_<p>].  The model (`rwKindOf`) decides from these what a read / change request does."""
+    out = []
+    for mn, mo in node.secnode.modules.items():
+        for ename, attr in mo.accessiblename2attr.items():
+            pobj = mo.parameters.get(attr)
+            if pobj is not None:
+                has_read = getattr(type(mo), 'read_' + attr).poll is not False or attr in READ_FN
+                out.append([mn, ename, bool(pobj.readonly), pobj.constant is not None, bool(has_read)])
+    return sorted(out)
 
 
 class Info:
@@ -516,7 +513,6 @@ def run_case(case, policy):
         for cid in range(1, case['nconn'] + 1):
             conns[cid] = node.conns[cid] = SConn(cid, s, events, info, stat, completed)
             node.dispatcher.add_connection(conns[cid])
-        rw_table = {}
 
         def handler(cid, script):
             conn = conns[cid]
@@ -578,10 +574,7 @@ def run_case(case, policy):
 
         hs = sorted((int(c), scr) for c, scr in case['handlers'].items())
         us = sorted((int(u), with_stamps(scr)) for u, scr in case['updaters'].items())
-        for cid, scr in hs:
-            for r in scr:
-                if r[0] in RW:
-                    rw_table[(r[0] == 'change', rw_spec(r))] = rw_kind(node, r[0] == 'change', rw_spec(r))
+        params = param_table(node)
         for cid, scr in hs:
             s.spawn('h%d' % cid, handler, (cid, scr))
         for u, scr in us:
@@ -598,7 +591,7 @@ def run_case(case, policy):
         raise RuntimeError(f'scheduler aborted ({result["aborted"]}) on case {json.dumps(case)}')
     setup = {'mods': [[mn, list(info.pars[mn])] for mn in info.mods],
              'conns': sorted(conns), 'cache': cache0, 'logFails': sorted(conns) if case.get('broken_logging') else [],
-             'omitWithin': omit_within, 'rw': sorted([w, spec, k] for (w, spec), k in rw_table.items())}
+             'omitWithin': omit_within, 'params': params}
     stat.pop('rw_thread')
     obs = {'events': events, 'cache': cache1, 'result': result, 'setup': setup, 'stat': stat, 'blocked': blocked, 'tabs': tabs,
            'sched': [[_tid(t), _label(l, info)] for t, l in s.trace],
